@@ -37,6 +37,16 @@ CHECKS = {
              "calls every expected method through the re-export.",
         note=NOTE, technique="bounded-exhaustive enumeration of module bodies; structural view of recorded expansion + executed client vs filter model",
         ref="DESIGN.md §3 C08"),
+    "C09": dict(
+        text="The default trait plus every combination of <= 2 (quick) / <= 3 (thorough) deviations over 13 dimensions (attributes above / below entrait, "
+             "visibility, unsafe, generics incl. lifetimes / defaults / const, supertraits, where clause, method attributes, default body, associated "
+             "types, async, a second method incl. generic and lifetime-carrying ones, 10 option sets incl. delegation targets with their own visibility) is "
+             "expanded, compiled and run. The emitted trait is diffed field by field (syn) against the trait the macro received - only the documented async "
+             "rewrite and macro-owned attributes may differ - and a client that implements the trait relying on default bodies / associated types / "
+             "supertraits must compile and compute the values the trait as written gives.",
+        note=NOTE + " One open known finding (associated types are dropped) is listed in known_findings.json.",
+        technique="deviation-bounded exhaustive enumeration of trait definitions on the real macro; structural identity model + executed client",
+        ref="DESIGN.md §3 C09"),
     "C10": dict(
         text="The complete 1296-point lattice {macro name} x {crate feature} x unimock{absent,true,false} x mock_api x mockall{absent,true,false} "
              "x export{absent,true,false} x {fn,mod,trait} x {cfg(test), not(test)} is enumerated without pruning; per point the attributes on the "
